@@ -109,6 +109,28 @@ def sweep(backend, prefix, alphabet, length):
     return total
 
 
+TRANSFERS = ["RETR g", "RETR d/f", "STOR n", "STOR g", "APPE g", "APPE n", "LIST", "MLSD d"]
+
+
+def sweep_hist(backend, hists, tag):
+    total = report.Partial()
+    for part, key, dead in report.pmap(expand, [(h, backend) for h in hists]):
+        total.merge(part)
+    total.counters[f"sweep_{backend}_{tag}"] = len(hists)
+    return total
+
+
+def rest_scope_histories():
+    """REST n, then any one command (refused transfers, transfers without data connection, anything), then a transfer
+    with a data connection: the offset may only ever apply to the command right after REST"""
+    out = []
+    for a in ALPHABET:
+        for t in TRANSFERS:
+            out.append(["USER anonymous", "EPSV", "@data", "REST 2", a, "@data", t])
+            out.append(["USER anonymous", "EPSV", "REST 2", a, "@data", t])
+    return out
+
+
 def run(tier, seed, t0):
     parts = []
     if tier == "quick":
@@ -118,7 +140,10 @@ def run(tier, seed, t0):
         parts.append(sweep("memory", ["USER anonymous", "PASV", "@data"], REDUCED, 2))
         parts.append(sweep("memory", ["USER anonymous", "EPSV", "@data", "REST 2"], ALPHABET, 1))
         parts.append(sweep("memory", ["USER anonymous", "EPSV", "@data", "REST 2"], REDUCED, 3))
+        parts.append(sweep_hist("memory", rest_scope_histories(), "rest-scope"))
     else:
+        parts.append(sweep_hist("memory", rest_scope_histories(), "rest-scope"))
+        parts.append(sweep_hist("pathio", rest_scope_histories(), "rest-scope"))
         parts.append(bfs("memory", 5, 400000))
         parts.append(bfs("pathio", 4, 100000))
         parts.append(bfs("async", 3, 40000))
